@@ -331,8 +331,24 @@ def declared_content(sets):
 
 def impl_names(le, dasz, data, which, via_elf=False):
     def f():
-        di = (mk_dwarfinfo_elf if via_elf else mk_dwarfinfo)(le, dasz, **{which: data})
-        lut = di.get_pubnames() if which == 'pubnames' else di.get_pubtypes()
+        # both name tables present on the one object (the other one holds the same bytes), and — chosen by the content,
+        # so that a replay is exact — the OTHER table asked for first, or the observed one asked for twice: the two
+        # accessors must not share state (a seeded copy-paste slip made get_pubnames() answer None after get_pubtypes())
+        other = 'pubtypes' if which == 'pubnames' else 'pubnames'
+        di = (mk_dwarfinfo_elf if via_elf else mk_dwarfinfo)(le, dasz, **{which: data, other: data})
+        get = {'pubnames': di.get_pubnames, 'pubtypes': di.get_pubtypes}
+        mode = 0 if data is None else (len(data) + sum(data[:8])) % 3
+        if mode == 1:
+            try:
+                get[other]()
+            except Exception:       # noqa: BLE001
+                pass
+        elif mode == 2:
+            try:
+                get[which]()
+            except Exception:       # noqa: BLE001
+                pass
+        lut = get[which]()
         if lut is None:
             return None
         items = [[k.encode('utf-8').hex(), v.cu_ofs, v.die_ofs] for k, v in lut.items()]
